@@ -121,15 +121,19 @@ class Clock:
 
 # ------------------------------------------------------------------ timelines
 
-def gap_timelines(N: int, values: tuple, gaps: tuple, terminals=("C", "E", None), first_gaps: tuple | None = None, term_gaps: tuple | None = None):
+def gap_timelines(N: int, values: tuple, gaps: tuple, terminals=("C", "E", None), first_gaps: tuple | None = None, term_gaps: tuple | None = None,
+                  positional: bool = False):
     """Relative timelines [(offset, kind, value)]: n<=N elements, element i at the sum of the
     first i+1 gaps (gap 0 = same instant as its predecessor = burst; first gap 0 = the
     subscription instant), then no terminal, or C/E after every possible gap (0 = the
-    instant of the last element: terminal with a pending element in the same instant)."""
+    instant of the last element: terminal with a pending element in the same instant).
+    positional=True: the i-th element always carries values[i] (pairwise distinct values, for
+    operators that never look at the values) instead of every word over `values`."""
     first_gaps = gaps if first_gaps is None else first_gaps
     term_gaps = gaps if term_gaps is None else term_gaps
     for n in range(N + 1):
-        for vals in itertools.product(values, repeat=n):
+        for vals in ([tuple(values[i % len(values)] if i < len(values) else (values[i % len(values)], i) for i in range(n))] if positional
+                     else itertools.product(values, repeat=n)):
             gap_choices = [first_gaps] + [gaps] * (n - 1) if n else []
             for gs in itertools.product(*gap_choices):
                 t, tl = 0, []
@@ -142,6 +146,35 @@ def gap_timelines(N: int, values: tuple, gaps: tuple, terminals=("C", "E", None)
                     else:
                         for g in (term_gaps if n else first_gaps):
                             yield tl + [(t + g, term, "E" if term == "E" else None)]
+
+
+def instance_timelines(tier: str, values_mode: str, deep: bool, vals: tuple, gaps: tuple, first_gaps, cache: dict):
+    """The timelines one operator instance is run on.
+    values_mode 'pos'  : the operator never looks at the values -> positional (pairwise distinct) values;
+                'alpha': the value selects behaviour (mapper operators) -> every word over the first two values.
+    quick   : <=3 elements; positional values for 'pos' instances that are not deep, every word over two values otherwise.
+    thorough: deep instances: every word over two values, <=4 elements (+ positional <=4 for 'pos');
+              other 'pos' instances: positional <=4 plus every word over two values <=3; other 'alpha': words <=3."""
+    key = (tier, values_mode, deep, first_gaps)
+    if key in cache:
+        return cache[key]
+    if tier == "quick":
+        sets = [(3, values_mode == "pos" and not deep)]
+    elif deep:
+        sets = [(4, False)] + ([(4, True)] if values_mode == "pos" else [])
+    elif values_mode == "pos":
+        sets = [(4, True), (3, False)]
+    else:
+        sets = [(3, False)]
+    out, seen = [], set()
+    for (n, positional) in sets:
+        for tl in gap_timelines(n, vals[:4] if positional else vals[:2], gaps, first_gaps=first_gaps, positional=positional):
+            k = tuple(tl)
+            if k not in seen:
+                seen.add(k)
+                out.append(tl)
+    cache[key] = out
+    return out
 
 
 def until_terminal(tl):
